@@ -20,7 +20,7 @@ func init() {
 		Explain: "Decides shape agreement, not value equality: for every type that has both encode and decode and for every protocol version 0..max+1 mentioned in its code, the language of wire-token sequences its encoder can emit is included in the language its decoder accepts — automata are built from the SSA control-flow graphs, nested encode/decode calls spliced in, version branches evaluated, data branches non-deterministic (C09.mirror); push/pop are balanced on every successful path (C09.balance); allocateBody maps every key to a type with that key and every sendAndReceive pairs a request and a response of the same API key (C09.keys); " +
 			"for every put* method the sizing pass (prepEncoder) and the writing pass (realEncoder) account for the same number of bytes, compared as symbolic linear forms per argument condition (C09.prep-real); length and CRC fields are written and checked over the same byte range with the same polynomial per container (C09.crc-len, the polynomial via C09.mirror tokens). " +
 			"NOT covered: value-level equality (which bytes), compression codecs, varint arithmetic, agreement with the Kafka specification itself.",
-		Rules: []func(*Ctx){c09Mirror, c09Order, c09Balance, c09Keys, c09PrepReal, c09CrcLen},
+		Rules: []func(*Ctx){c09Mirror, c09Order, c09Balance, c09Keys, c09PrepReal, c09Null, c09CrcLen},
 	})
 }
 
@@ -674,5 +674,83 @@ func c09Order(c *Ctx) {
 			continue
 		}
 		c.Check(bad == "", rule, pr.enc, "order:"+pr.name, nil, fmt.Sprintf("%d fields, %d ordered pairs agree between encode and decode", len(fields), npairs), pr.name+": "+bad+": a round trip swaps the two values", nil)
+	}
+}
+
+// c09Null: nil and empty are different values on the wire.
+func c09Null(c *Ctx) {
+	p := c.P
+	rule := "C09.null"
+	c.Doc(rule, "nil vs empty: an encoder method writes the null marker (length −1, or uvarint 0 for nullable compact forms) only under `arg == nil`; a realDecoder getter returns a nil value with a nil error only under the null marker (length == −1, compact n == 0)")
+	c.Floor(rule, 8)
+	for _, recv := range []string{"prepEncoder", "realEncoder"} {
+		for _, fn := range p.Fns {
+			if fn.Parent() != nil || fn.Signature.Recv() == nil || !isPtrToNamed(fn.Signature.Recv().Type(), recv) || !strings.HasPrefix(fn.Name(), "put") || len(fn.Params) != 2 {
+				continue
+			}
+			arg := fn.Params[1]
+			switch arg.Type().Underlying().(type) {
+			case *types.Slice, *types.Pointer:
+			default:
+				continue
+			}
+			reg := WholeFn(fn)
+			nullable := strings.Contains(fn.Name(), "Nullable")
+			marker := func(it Item) bool {
+				cc, ok := callCommon(it)
+				if !ok || cc.StaticCallee() == nil || len(cc.Args) != 2 {
+					return false
+				}
+				n := cc.StaticCallee().Name()
+				k, isK := dConstInt(dStrip(cc.Args[1]))
+				if !isK {
+					return false
+				}
+				switch n {
+				case "putInt16", "putInt32", "putVarint":
+					return k == -1
+				case "putUVarint", "putInt8":
+					return nullable && k == 0
+				}
+				return false
+			}
+			// prepEncoder.putNullableString adds the bare length without a call: `length += 2; return nil` under in == nil
+			for _, s := range reg.Find(marker) {
+				g, path := reg.Guarded(s, Cmp{token.EQL, Same(arg), IsNil()})
+				c.Check(g, rule, fn, "null-marker-only-for-nil", s.Instr(), "null marker written only under "+arg.Name()+" == nil",
+					recv+"."+fn.Name()+" writes the null marker without the test "+arg.Name()+" == nil (e.g. for every empty value): an empty key/value/string is decoded as null — a different value (for record values: a tombstone)", path)
+			}
+		}
+	}
+	for _, name := range []string{"realDecoder.getBytes", "realDecoder.getVarintBytes", "realDecoder.getNullableString", "realDecoder.getCompactNullableString"} {
+		fn := c.NeedFn(rule, name)
+		if fn == nil {
+			continue
+		}
+		reg := WholeFn(fn)
+		n := 0
+		for _, r := range reg.Find(ReturnNilErr()) {
+			rv := RetVals(r.In.(*ssa.Return))
+			if !IsNil()(rv[0]) {
+				continue
+			}
+			n++
+			isLen := func(v ssa.Value) bool {
+				switch x := dStrip(v).(type) {
+				case *ssa.Extract:
+					_, ok := x.Tuple.(*ssa.Call)
+					return ok && x.Index == 0
+				case *ssa.Convert:
+					return true
+				case *ssa.BinOp:
+					return true
+				}
+				return false
+			}
+			g1, path := reg.Guarded(r, AnyOf{Cmp{token.EQL, isLen, ConstInt(-1)}, Cmp{token.LSS, isLen, ConstInt(0)}, Cmp{token.EQL, isLen, ConstInt(0)}})
+			// `return nil, err` with err == nil known only after the length test: accept when guarded by the null test
+			c.Check(g1, rule, fn, "nil-only-for-null-marker", r.Instr(), "a nil value is returned (without error) only behind the test for the null marker", name+" can return a nil value for a non-null length", path)
+		}
+		_ = n
 	}
 }
